@@ -29,6 +29,15 @@ def run_one(spec, props=None, keep=False):
             if old not in s:
                 return [(spec['name'], '-', 'STALE', 'edit anchor not found in %s' % f)]
             open(p, 'w').write(s.replace(old, new, 1))
+        if spec.get('sed'):
+            import re
+            fp = os.path.join(d, spec.get('sed_file', 'src/binson_parser.c'))
+            txt = open(fp).read()
+            for (pat, repl) in spec['sed']:
+                txt, nsub = re.subn(pat, repl, txt)
+                if nsub == 0:
+                    return [(spec['name'], '-', 'STALE', 'pattern %r not found' % pat)]
+            open(fp, 'w').write(txt)
         out = []
         for prop, expect in spec['expect'].items():
             if props and prop not in props:
